@@ -40,6 +40,12 @@ impl<T: EntityWorldReactor> EntityWorldReactorRes<T>
     }
 }
 
+#[cfg(feature = "verif")]
+impl<T: EntityWorldReactor> EntityWorldReactorRes<T>
+{
+    pub(crate) fn verif_sys_command(&self) -> SystemCommand { self.sys_command }
+}
+
 //-------------------------------------------------------------------------------------------------------------------
 
 #[derive(Component)]
